@@ -185,7 +185,7 @@ def run(ctx):
     pre, cases, owners = [], [], []
     stats = {"problems": 0, "skipped": {}, "plans": 0, "valid": 0, "invalid": 0, "raised": 0, "outside_supported": 0,
              "steps": {}, "durative_steps": 0, "instantaneous_steps": 0, "coinciding_happenings": 0,
-             "timed_effects": 0, "timed_goals": 0, "invariants": 0, "bounded_fluents": 0, "undefined_fluents": 0,
+             "timed_effects": 0, "timed_goals": 0, "invariants": 0, "bounded_fluents": 0, "half_bounded_fluents": 0, "undefined_fluents": 0,
              "duration_kinds": {}, "left_open_conditions": 0, "intermediate_conditions": 0, "forall_effects": 0,
              "conditional_effects": 0, "incdec_effects": 0}
     nontriv = set()
@@ -228,6 +228,7 @@ def run(ctx):
             t = f.type
             if (t.is_int_type() or t.is_real_type()) and (t.lower_bound is not None or t.upper_bound is not None):
                 stats["bounded_fluents"] += 1
+                stats["half_bounded_fluents"] += (t.lower_bound is None) != (t.upper_bound is None)
             if f not in p.fluents_defaults:
                 stats["undefined_fluents"] += 1
         for a in gen.actions:
